@@ -113,6 +113,7 @@ type VC struct {
 	knownTerms map[*KnownFinding]Term
 	recDecl    map[string]string // define-fun-rec line -> declare-fun line
 	constLens  map[string]int64  // slice terms with a literal length (varargs arrays)
+	boxed      map[string]Val    // interface term -> boxed value
 }
 
 func newVC(eng *Engine, name string, c *Contract) *VC {
@@ -148,6 +149,9 @@ func (vc *VC) define(prefix string, t Term) Term {
 	}
 	if len(t.S) < 24 && !strings.Contains(t.S, "ite") {
 		return t
+	}
+	if strings.Contains(t.S, "q_") || strings.Contains(t.S, "p!") || strings.Contains(t.S, "h!") {
+		return t // mentions bound variables / spec-function formals: cannot be named globally
 	}
 	n := vc.freshName(prefix)
 	vc.emit(fmt.Sprintf("(define-fun %s () %s %s)", n, t.Sort, t.S))
@@ -604,7 +608,9 @@ func (vc *VC) typeInv(v Term, t types.Type, alloc Term) Term {
 	case *types.Slice:
 		c := and(le(intLit(0), sArr(v)), le(intLit(0), sOff(v)), le(intLit(0), sLen(v)), le(sLen(v), sCap(v)),
 			implies(eq(sArr(v), intLit(0)), and(eq(sCap(v), intLit(0)), eq(sOff(v), intLit(0)))),
-			le(add(sOff(v), sCap(v)), bigLit(new(big.Int).Sub(pow2(62), big.NewInt(1)))))
+			// no slice spans more than 2^48 elements (256 TiB of bytes): an assumption
+			// about the machine, reported with every evidence file
+			le(add(sOff(v), sCap(v)), bigLit(pow2(48))))
 		if alloc.S != "" {
 			c = and(c, lt(sArr(v), alloc))
 		}
